@@ -62,8 +62,20 @@ impl<T: Write + Send + 'static> Worker<T> {
             let handle_result = self.handle_try_recv(&try_recv_result);
             worker_state = handle_result?;
         }
-        self.writer.flush()?;
-        Ok(worker_state)
+        match self.writer.flush() {
+            // A failed flush must not hide that the channel asked us to stop:
+            // the shutdown message has already been consumed, so reporting
+            // the error instead would send the worker back into `recv()` and
+            // the shutdown would be lost.
+            Err(_)
+                if worker_state == WorkerState::Shutdown
+                    || worker_state == WorkerState::Disconnected =>
+            {
+                Ok(worker_state)
+            }
+            Err(e) => Err(e),
+            Ok(()) => Ok(worker_state),
+        }
     }
 
     /// Creates a worker thread that processes a channel until it's disconnected
